@@ -92,6 +92,8 @@ func PrintUniverse() []wire.Path {
 		contents = append(contents, "C:\\"+string(c)+"pps", "\\"+string(c))
 	}
 	contents = append(contents, "\\u0041", "\\x41", "\\u{41}", "\x07\\a\x07", "\\\\a")
+	// text that a formatting verb, a template or a shell would interpret
+	contents = append(contents, "%", "%%", "%s", "%d%%", "100%", "%!s(MISSING)", "{{.}}", "${x}", "`a`", "a%20b")
 	for _, c := range contents {
 		b := wire.Bytes(c)
 		expr(wire.Node{K: "str", S: b})
